@@ -613,17 +613,24 @@ func gen(kind string) func(t *rapid.T) Case {
 		case "treebidimap":
 			c.Cmp = dom.TotalCmps[rapid.IntRange(0, len(dom.TotalCmps)-1).Draw(t, "cmp")]
 		}
-		c.Adds = rapid.SliceOfN(rapid.IntRange(0, 12), 0, 10).Draw(t, "adds")
+		maxN, hi := 10, 12
+		if rapid.IntRange(0, 11).Draw(t, "large") == 0 {
+			maxN, hi = 90, 200 // dozens of elements
+		}
+		c.Adds = rapid.SliceOfN(rapid.IntRange(0, hi), 0, maxN).Draw(t, "adds")
 		switch kind {
 		case "treemap", "linkedhashmap", "treebidimap":
-			c.Vals = rapid.SliceOfN(rapid.IntRange(0, 12), 0, 10).Draw(t, "vals")
+			c.Vals = rapid.SliceOfN(rapid.IntRange(0, hi), 0, maxN).Draw(t, "vals")
 		}
 		if kind != "arraylist" && kind != "singlylinkedlist" && kind != "doublylinkedlist" {
 			c.Rems = rapid.SliceOfN(rapid.IntRange(0, 12), 0, 2).Draw(t, "rems")
 		}
 		c.P = genPred(t)
 		c.M = genMapper(t)
-		c.Post = rapid.SliceOfN(rapid.IntRange(-3, 15), 0, 3).Draw(t, "post")
+		c.Post = rapid.SliceOfN(rapid.IntRange(-3, hi+3), 0, 3).Draw(t, "post")
+		if maxN > 10 {
+			c.Post = rapid.SliceOfN(rapid.IntRange(-3, hi+3), 0, 40).Draw(t, "post-many")
+		}
 		return c
 	}
 }
